@@ -986,7 +986,8 @@ static int btls_accept(struct xcm_socket *conn_s, struct xcm_socket *server_s)
     if (conn_bts->verify_peer_name && enable_hostname_validation(conn_s) < 0)
 	goto err_close;
 
-    set_bio(conn_s);
+    if (set_bio(conn_s) < 0)
+	goto err_close;
 
     BTLS_SET_STATE(conn_s, conn_state_tls_handshaking);
 
